@@ -407,6 +407,18 @@ def rewrite_cases(thorough):
         out.append(("associate-comparison", ("leaf", ("bool", "AND", (a, ("cparen", ("bool", "AND", (b, c)))))), ("leaf", ("bool", "AND", (("cparen", ("bool", "AND", (a, b))), c)))))
         out.append(("distribute-comparison", ("leaf", ("bool", "AND", (a, ("cparen", ("bool", "OR", (b, c)))))),
                     ("leaf", ("bool", "OR", (("cparen", ("bool", "AND", (a, b))), ("cparen", ("bool", "AND", (a, c))))))))
+    # the same rewrite applied INSIDE a larger expression, where AND and OR alternate four and five levels deep: one inner distribution step, and the fully distributed form
+    cp = lambda op, *xs: ("cparen", ("bool", op, tuple(xs)))
+    for a, b, c, d, e in itertools.permutations(core[:5], 5) if thorough else [tuple(core[i:] + core[:i])[:5] for i in range(len(core))]:
+        deep = ("leaf", ("bool", "AND", (a, cp("OR", b, cp("AND", c, cp("OR", d, e))))))
+        one_step = ("leaf", ("bool", "AND", (a, cp("OR", b, cp("AND", c, d), cp("AND", c, e)))))
+        full = ("leaf", ("bool", "OR", (cp("AND", a, b), cp("AND", a, c, d), cp("AND", a, c, e))))
+        out.append(("distribute-comparison-nested", deep, one_step))
+        out.append(("distribute-comparison-nested", deep, full))
+        out.append(("distribute-comparison-nested", one_step, full))
+        deeper = ("leaf", ("bool", "OR", (e, cp("AND", a, cp("OR", b, cp("AND", c, cp("OR", d, a)))))))
+        deeper_full = ("leaf", ("bool", "OR", (e, cp("AND", a, b), cp("AND", a, c, d), cp("AND", a, c, a))))
+        out.append(("distribute-comparison-nested", deeper, deeper_full))
     out.append(("set-literal-order", ("leaf", ATOMS[8]), ("leaf", ATOMS[9])))
     out.append(("set-literal-order", ("leaf", atom("IN", "q", ("set", (S("a"), S("b"), S("c"))))), ("leaf", atom("IN", "q", ("set", (S("c"), S("a"), S("b")))))))
     for st in A.SETS:
@@ -435,6 +447,15 @@ def rewrite_cases(thorough):
         out.append(("distribute-observation", ("obs", "AND", (a, ("obs", "OR", (b, c)))), ("obs", "OR", (("obs", "AND", (a, b)), ("obs", "AND", (a, c))))))
         out.append(("distribute-observation", ("obs", "FOLLOWEDBY", (a, ("obs", "OR", (b, c)))), ("obs", "OR", (("obs", "FOLLOWEDBY", (a, b)), ("obs", "FOLLOWEDBY", (a, c))))))
         out.append(("distribute-observation", ("obs", "FOLLOWEDBY", (("obs", "OR", (a, b)), c)), ("obs", "OR", (("obs", "FOLLOWEDBY", (a, c)), ("obs", "FOLLOWEDBY", (b, c))))))
+    W, V = ("leaf", ATOMS[4]), ("leaf", ATOMS[13])
+    ob = lambda op, *xs: ("obs", op, tuple(xs))
+    for a, b, c, d, e in [(X, Y, Z, W, V), (V, W, X, Y, Z), (Z, X, V, Y, W)]:
+        for op in ("AND", "FOLLOWEDBY"):
+            deep = ob(op, a, ob("OR", b, ob(op, c, ob("OR", d, e))))
+            one_step = ob(op, a, ob("OR", b, ob(op, c, d), ob(op, c, e)))
+            full = ob("OR", ob(op, a, b), ob(op, a, c, d), ob(op, a, c, e))
+            out.append(("distribute-observation-nested", deep, one_step))
+            out.append(("distribute-observation-nested", deep, full))
     return out
 
 
